@@ -2,3 +2,6 @@ import Rbacx.Model.Engine
 import Rbacx.Proofs.PolicyLoop
 import Rbacx.Proofs.EvaluateSpec
 import Rbacx.Properties.C02
+import Rbacx.Proofs.Redact
+import Rbacx.Proofs.RedactLog
+import Rbacx.Properties.C19
